@@ -28,6 +28,7 @@ type Report struct {
 	Samples       []any          `json:"samples"`
 	Exhaustive    []string       `json:"exhaustive_spaces,omitempty"`
 	Notes         []string       `json:"notes,omitempty"`
+	NontrivCount  int            `json:"nontrivial_counted"` // distinct by construction (enumerations)
 	Inconclusive  int            `json:"inconclusive"`
 	Failures      int            `json:"failures"`
 }
@@ -83,6 +84,20 @@ func Eval(nontrivialKey string, labels ...string) {
 	cur.Evaluations++
 	if nontrivialKey != "" {
 		nontriv[nontrivialKey] = struct{}{}
+	}
+	for _, l := range labels {
+		cur.Labels[l]++
+	}
+}
+
+// EvalCounted counts one judged case of an enumeration whose members are
+// distinct by construction (each enumerated exactly once), so no hash is kept.
+func EvalCounted(nontrivial bool, labels ...string) {
+	mu.Lock()
+	defer mu.Unlock()
+	cur.Evaluations++
+	if nontrivial {
+		cur.NontrivCount++
 	}
 	for _, l := range labels {
 		cur.Labels[l]++
